@@ -488,30 +488,78 @@ def first_open_is_resumable(ctx, rule):
     if not fn:
         return
     og = ctx.og(fn)
-    marker = [b for b, t in fn.calls() if A.cname(t) in CREATE_NEW and any(c == "version" for c in map(str, A.consts_in(og.of_operand(t["args"][0]))))]
-    if not marker:
-        marker = [b for b, t in fn.calls() if A.cname(t) in CREATE_NEW]
+    MARKER_CREATE = CREATE_NEW + ("std::fs::File::create",)
+
+    def names(term):
+        out = set()
+        for c in A.consts_in(term):
+            if isinstance(c, (list, tuple)) and len(c) == 2 and c[0] == "str":
+                out.add(c[1])
+            if isinstance(c, (list, tuple)) and len(c) == 2 and c[0] == "bytes":
+                try:
+                    out.add(bytes(c[1]).decode())
+                except Exception:
+                    pass
+            if isinstance(c, (list, tuple)) and len(c) == 2 and c[0] == "def":
+                out.add(str(c[1]))
+        return out
+    marker = [b for b, t in fn.calls() if A.cname(t) in MARKER_CREATE and any("version" in n.lower() for n in names(og.of_operand(t["args"][0])))]
     ctx.floor(rule, "version marker creation in Database::create_new", marker, 1)
     if not marker:
         return
     m = marker[0]
-    removes = [b for b, t in fn.calls() if A.cname(t) in ("std::fs::remove_file", "std::fs::remove_dir_all")]
+    removes = [(b, t) for b, t in fn.calls() if A.cname(t) in ("std::fs::remove_file", "std::fs::remove_dir_all")]
     steps = 0
     for b, t in fn.calls():
         n = A.cname(t)
         if b == m or not A.dominates(fn, b, m) or n not in ctx.F.fns or not ctx.cg.reaches(n, set(CREATE_NEW)):
             continue
         steps += 1
-        ok = _tolerates_leftover(ctx, n) or any(A.dominates(fn, r_, b) for r_ in removes)
+        ok = _tolerates_leftover(ctx, n)
+        how = "tolerates the file a crashed first open left behind"
+        if not ok:
+            # ... or the leftover is removed first: a remove of the SAME path that can run before the step
+            pn = names(og.of_operand(t["args"][0]))
+            for rb, rt in removes:
+                same = bool(pn) and pn == names(og.of_operand(rt["args"][0]))
+                if same and b in A.reach_after(fn, rb):
+                    ok = True
+                    how = "finds its leftover removed first (remove_file of the same path on the resuming path)"
         short = "::".join(n.split("::")[-2:])
         ctx.ob(rule, fn, "step-%s-is-repeatable-after-an-interrupted-first-open" % short, ok,
-               "%s tolerates the file a crashed first open left behind" % short if ok else
+               "%s %s" % (short, how) if ok else
                "%s creates its file with create-new semantics and gives up on AlreadyExists: when the process dies in Database::create_new after this step and before the version marker, every later open of the directory fails (the directory never held an acknowledged write, C02 still requires reopening to succeed)" % short,
                fn.loc(b))
     ctx.floor(rule, "create-new steps before the version marker", steps, 2)
-    renamed = [b for b, t in fn.calls() if A.cname(t) == "std::fs::rename" and m in A.dominators_of(fn, b)] if hasattr(A, "dominators_of") else \
-        [b for b, t in fn.calls() if A.cname(t) == "std::fs::rename" and A.dominates(fn, m, b)]
-    ctx.ob(rule, fn, "version-marker-becomes-visible-only-when-complete", bool(renamed),
-           "the marker is written under a temporary name and renamed into place" if renamed else
-           "the version marker is created under its final name and filled afterwards: a process that dies between File::create_new(version) and the header write leaves an empty marker, which every later open refuses as an invalid version",
+    renamed = [b for b, t in fn.calls() if A.cname(t) == "std::fs::rename" and A.dominates(fn, m, b)]
+    # the rename moves what was created (the temporary name) and comes after the marker's sync
+    okr = False
+    if renamed:
+        syncs = [b for b, t in fn.calls() if A.cname(t) == "std::fs::File::sync_all" and A.dominates(fn, m, b)]
+        src = og.of_operand(fn.term(renamed[0])["args"][0])
+        okr = bool(syncs) and any(A.dominates(fn, s_, renamed[0]) for s_ in syncs) and bool(names(src) & names(og.of_operand(fn.term(m)["args"][0])))
+    ctx.ob(rule, fn, "version-marker-becomes-visible-only-when-complete", bool(okr),
+           "the marker is written under a temporary name, synced, and renamed into place" if okr else
+           "the version marker is created under its final name and filled afterwards (or renamed before it is synced): a process that dies in between leaves an incomplete marker, which every later open refuses as an invalid version",
            fn.loc(m))
+    # the route: create_or_recover sends an interrupted creation (and nothing else that holds files) to create_new
+    cor = ctx.fn("db::Database::create_or_recover", rule)
+    if cor:
+        ic = [b for b, t in cor.calls() if A.cname(t) == "db::Database::is_interrupted_creation"]
+        cn = [b for b, t in cor.calls() if A.cname(t) == "db::Database::create_new"]
+        okc = False
+        if ic and cn:
+            sw = None
+            for x in sorted(A.reach(cor, cor.succs(ic[0]))):
+                t_ = cor.term(x)
+                if t_["k"] == "switch" and t_.get("dty") == "bool" and any(y.k == "call" and y.a[0] == "db::Database::is_interrupted_creation" for y in A.walk(ctx.og(cor).of_operand(t_["d"]))):
+                    sw = x
+                    break
+            if sw is not None:
+                tm, neg = A.strip_not(ctx.og(cor).of_operand(cor.term(sw)["d"]))
+                zero, true_t = A.bool_edges(cor, sw)
+                yes = zero if neg else true_t
+                okc = any(c in A.reach(cor, list(yes)) for c in cn)
+        ctx.ob(rule, cor, "interrupted-creation-is-resumed", okc,
+               "a folder that holds only what create_new lays out before the marker is handed to create_new" if okc else
+               "create_or_recover never resumes an interrupted first creation: the folder is refused forever")
